@@ -49,11 +49,14 @@ pub fn check(t: &Trace<'_>, out: &mut CaseOut) -> bool {
         if let Some(CPacket::Connect { keepalive, props, client_id, will, username, password, .. }) = c.out.packets.first().map(|p| &p.pkt) {
             out.count("connects_compared", 1);
             let mut bad: Vec<String> = Vec::new();
-            if *keepalive != cfg.keepalive && Some(*keepalive) != server_ka {
-                bad.push(format!("keep-alive {} (configured {}, server keep-alive {:?})", keepalive, cfg.keepalive, server_ka));
-            }
+            // the application asked for `cfg.keepalive`; a Server Keep Alive overrides it for the
+            // connection whose CONNACK carried it, not for the next CONNECT
             if *keepalive != cfg.keepalive {
-                out.count("connect_with_sticky_server_keepalive", 1);
+                let sticky = Some(*keepalive) == server_ka;
+                bad.push(format!("keep-alive{} {} (configured {}, Server Keep Alive of an earlier connection {:?})", if sticky { "/sticky-server-keep-alive" } else { "" }, keepalive, cfg.keepalive, server_ka));
+            }
+            if server_ka.is_some_and(|k| k != cfg.keepalive) {
+                out.count("connects_after_a_server_keepalive_override", 1);
             }
             let want_props = vec![Prop::MaximumPacketSize(cfg.rx as u32), Prop::SessionExpiry(cfg.session_expiry), Prop::ReceiveMaximum(8)];
             if !props_match(&want_props, props) {
@@ -211,6 +214,20 @@ pub fn check(t: &Trace<'_>, out: &mut CaseOut) -> bool {
                 let Some(p) = during.iter().find(|p| matches!(p.pkt, CPacket::Disconnect { .. })) else { continue };
                 out.count("disconnects_compared", 1);
                 if let CPacket::Disconnect { reason, props } = &p.pkt {
+                    // a DISCONNECT begun by an earlier, cancelled disconnect() is finished by this
+                    // call: it carries what the call that started it asked for
+                    let spec = if p.start < op.out_before {
+                        let origin = t.log.ops[..i].iter().rev().find(|o| o.conn == Some(conn) && o.kind == "disconnect" && o.out_before <= p.start && o.out_after > p.start);
+                        match origin.map(|o| &t.log.steps[o.step]) {
+                            Some(Step::Disconnect(first)) => {
+                                out.count("disconnects_finished_by_a_later_call", 1);
+                                first
+                            }
+                            _ => continue,
+                        }
+                    } else {
+                        spec
+                    };
                     let want_reason = spec.reason.unwrap_or(0);
                     let want_props = spec.props.clone().unwrap_or_default();
                     if *reason != want_reason {
